@@ -269,6 +269,8 @@ def main():
             samples.append(c)
         for sig, what in fails:
             failures.append({"signature": sig, "what": what, "case": c})
+        if len(failures) >= 20:  # enough to report; do not spend the failing-input search budget on more
+            break
     print(json.dumps({"evaluations": nev, "distinct": len(distinct), "samples": samples, "kinds": kinds,
                       "failures": failures[:20]}))
 
